@@ -403,14 +403,129 @@ def stepOut (allowNeg : Bool) (s : St) (t : OutTx) : Option St := do
 def rows (s : St) : List (Nat × Rat × Rat × Rat × Rat) :=
   s.final_balances.map (fun p => (p.1, p.2, (s.acquired_balances.getD p.1 (0 : Rat)), (s.sent_balances.getD p.1 (0 : Rat)), (s.received_balances.getD p.1 (0 : Rat))))'''
 
+# ------------------------------------------------------------------------------------------------ yearly summary loop
+
+GL_ATTR = {   # attribute of `gain_loss` -> (lean term, needs bind)
+    "crypto_amount": ("(ofUnits f.amt)", False),
+    "taxable_event_fiat_amount_with_fee_fraction": ("(← F.GainLoss_taxable_event_fiat_amount_with_fee_fraction f)", True),
+    "fiat_cost_basis": ("(← F.GainLoss_fiat_cost_basis f)", True),
+    "fiat_gain": ("(← F.GainLoss_fiat_gain f)", True),
+}
+KEY_EXPR = {"gain_loss.taxable_event.timestamp.year": "f.ev.ts.year", "gain_loss.taxable_event.transaction_type": "f.ev.typ",
+            "gain_loss.is_long_term_capital_gains()": "(← F.GainLoss_is_long_term_capital_gains period f)", "gain_loss.asset": None}
+YFIELD = {"crypto_amount": "amt", "fiat_amount": "fiat", "fiat_cost_basis": "cost", "fiat_gain_loss": "gain"}
+
+
+def dataclass_fields(tree, name):
+    c = next((n for n in tree.body if isinstance(n, ast.ClassDef) and n.name == name), None)
+    if c is None or not any("dataclass" in ast.unparse(d) or "NamedTuple" in ast.unparse(d) for d in c.decorator_list + c.bases):
+        raise Untranslatable(name + " is not a dataclass / NamedTuple")
+    return [n.target.id for n in c.body if isinstance(n, ast.AnnAssign) and isinstance(n.target, ast.Name)]
+
+
+def gen_yearly():
+    tree = ast.parse(open(os.path.join(SRC, "computed_data.py")).read())
+    f = find(tree, "ComputedData", "_create_yearly_gain_loss_list")
+    idf = dataclass_fields(tree, "_YearlyGainLossId")
+    amf = dataclass_fields(tree, "_YearlyGainLossAmounts")
+    if idf != ["year", "asset", "transaction_type", "is_long_term_capital_gains"] or amf != list(YFIELD):
+        raise Untranslatable("fields of the key / amounts classes")
+    body = nodoc(f.body)
+    loops = [s for s in body if isinstance(s, ast.For)]
+    if len(loops) != 2 or ast.unparse(loops[0].iter) != "unfiltered_gain_loss_set":
+        raise Untranslatable("loops of _create_yearly_gain_loss_list")
+    if not any(isinstance(s, ast.AnnAssign) and ast.unparse(s.target) == "summaries" and isinstance(s.value, ast.Dict) and not s.value.keys for s in body):
+        raise Untranslatable("summaries does not start empty")
+    var = ast.unparse(loops[0].target)
+    lb = nodoc(loops[0].body)
+    stops = key = zero = None
+    locs = {}
+    lines = []
+    result = None
+    for s in lb:
+        if isinstance(s, (ast.Assign, ast.AnnAssign)) and s.value is not None:
+            tg = ast.unparse(s.targets[0] if isinstance(s, ast.Assign) else s.target)
+            v = s.value
+            if tg == "gain_loss" and ast.unparse(v) in (f"cast(GainLoss, {var})", var):
+                continue
+            if tg == "key" and isinstance(v, ast.Call) and ast.unparse(v.func) == "_YearlyGainLossId":
+                given = dict(zip(idf, v.args)); given.update({k.arg: k.value for k in v.keywords})
+                if sorted(given) != sorted(idf): raise Untranslatable("key arguments")
+                comp = {}
+                for k_, e in given.items():
+                    t = ast.unparse(e)
+                    if t not in KEY_EXPR: raise Untranslatable("key component " + t[:50])
+                    comp[k_] = KEY_EXPR[t]
+                if comp["asset"] is not None or None in (comp["year"], comp["transaction_type"], comp["is_long_term_capital_gains"]):
+                    raise Untranslatable("key components")
+                key = f"pure ⟨{comp['year']}, {comp['transaction_type']}, {comp['is_long_term_capital_gains']}⟩"
+                continue
+            if tg == "value" and isinstance(v, ast.Call) and ast.unparse(v.func) == "summaries.setdefault" and ast.unparse(v.args[0]) == "key":
+                z = v.args[1]
+                if not (isinstance(z, ast.Call) and ast.unparse(z.func) == "_YearlyGainLossAmounts"): raise Untranslatable("default of setdefault")
+                zg = dict(zip(amf, z.args)); zg.update({k.arg: k.value for k in z.keywords})
+                if sorted(zg) != sorted(amf) or any(ast.unparse(e) != "ZERO" for e in zg.values()): raise Untranslatable("default amounts")
+                zero = "⟨0, 0, 0, 0⟩"
+                continue
+            if isinstance(v, ast.BinOp) and isinstance(v.op, ast.Add) and tg.isidentifier():
+                l, r = ast.unparse(v.left), ast.unparse(v.right)
+                if not (l.startswith("value.") and l[6:] in YFIELD and r.startswith("gain_loss.") and r[10:] in GL_ATTR):
+                    raise Untranslatable("sum " + ast.unparse(v)[:60])
+                lines.append(f"  let {tg} : Rat := dadd value.{YFIELD[l[6:]]} {GL_ATTR[r[10:]][0]}")
+                locs[tg] = True
+                continue
+            if tg == "summaries[key]" and isinstance(v, ast.Call) and ast.unparse(v.func) == "_YearlyGainLossAmounts":
+                g = dict(zip(amf, v.args)); g.update({k.arg: k.value for k in v.keywords})
+                if sorted(g) != sorted(amf) or any(ast.unparse(e) not in locs for e in g.values()): raise Untranslatable("stored amounts")
+                result = "pure ⟨" + ", ".join(ast.unparse(g[k]) for k in amf) + "⟩"
+                continue
+        if isinstance(s, ast.If) and not s.orelse and len(s.body) == 1 and isinstance(s.body[0], ast.Break) and isinstance(s.test, ast.Compare) \
+                and len(s.test.ops) == 1 and type(s.test.ops[0]) in CMP and ast.unparse(s.test.left) == "gain_loss.taxable_event.timestamp.date()" \
+                and ast.unparse(s.test.comparators[0]) == "to_date":
+            stops = f"decide (day {CMP[type(s.test.ops[0])]} toD)"
+            continue
+        raise Untranslatable("statement " + ast.unparse(s)[:70])
+    if None in (stops, key, zero, result):
+        raise Untranslatable("loop body incomplete")
+    # second loop: every summary becomes a YearlyGainLoss with the same fields
+    l2 = loops[1]
+    call = next((s.value for s in nodoc(l2.body) if isinstance(s, (ast.Assign, ast.AnnAssign)) and isinstance(s.value, ast.Call) and ast.unparse(s.value.func) == "YearlyGainLoss"), None)
+    if ast.unparse(l2.iter) != "summaries.items()" or call is None or call.args:
+        raise Untranslatable("second loop")
+    kw = {k.arg: ast.unparse(k.value) for k in call.keywords}
+    if kw != {**{k: "key." + k for k in idf}, **{k: "value." + k for k in amf}}:
+        raise Untranslatable("fields of YearlyGainLoss")
+    return "\n".join([
+        "/-- `if gain_loss.taxable_event.timestamp.date() … to_date: break` of `_create_yearly_gain_loss_list` -/",
+        f"def yearlyStops (day toD : Int) : Bool := {stops}",
+        "/-- the key of the summary line a fraction is added to (the asset component is the run's asset) -/",
+        "def yearlyKey (period : Int) (f : Fraction) : Option YKey := do", "  " + key,
+        "/-- the amounts `summaries.setdefault` starts a line with -/", f"def yearlyZero : YSums := {zero}",
+        "/-- the new amounts of the line: `summaries[key] = _YearlyGainLossAmounts(…)` -/",
+        "def yearlyAdd (value : YSums) (f : Fraction) : Option YSums := do", *lines, "  " + result])
+
+
+YEARLY_FALLBACK = """-- `_create_yearly_gain_loss_list`: NOT TRANSLATED; the text generated from the pinned tree stands in
+def yearlyStops (day toD : Int) : Bool := decide (day > toD)
+def yearlyKey (period : Int) (f : Fraction) : Option YKey := do
+  pure ⟨f.ev.ts.year, f.ev.typ, (← F.GainLoss_is_long_term_capital_gains period f)⟩
+def yearlyZero : YSums := ⟨0, 0, 0, 0⟩
+def yearlyAdd (value : YSums) (f : Fraction) : Option YSums := do
+  let crypto_amount : Rat := dadd value.amt (ofUnits f.amt)
+  let fiat_amount : Rat := dadd value.fiat (← F.GainLoss_taxable_event_fiat_amount_with_fee_fraction f)
+  let fiat_cost_basis : Rat := dadd value.cost (← F.GainLoss_fiat_cost_basis f)
+  let fiat_gain_loss : Rat := dadd value.gain (← F.GainLoss_fiat_gain f)
+  pure ⟨crypto_amount, fiat_amount, fiat_cost_basis, fiat_gain_loss⟩"""
+
 translated, untranslated = [], []
-out = ["import Rp2.Model.Dict", "namespace Rp2.Gen.L", "open Rp2"]
-for name, gen, fb in (("EntrySetIterator.__next__", gen_iterator, ITER_FALLBACK), ("BalanceSet.__init__", gen_balance, BAL_FALLBACK)):
+out = ["import Rp2.Model.Dict", "import Rp2.Gen.Formulas", "namespace Rp2.Gen.L", "open Rp2 Rp2.Gen"]
+for name, gen, fb in (("EntrySetIterator.__next__", gen_iterator, ITER_FALLBACK), ("BalanceSet.__init__", gen_balance, BAL_FALLBACK),
+                      ("ComputedData._create_yearly_gain_loss_list", gen_yearly, YEARLY_FALLBACK)):
     try:
         out.append(gen()); translated.append(name)
     except Exception as e:
         why = str(e) if isinstance(e, Untranslatable) else f"translator error {type(e).__name__}: {e}"
-        out.append(f"-- {name}: NOT TRANSLATED ({why[:160]})")
+        out.append("-- " + name + ": NOT TRANSLATED (" + " ".join(why.split())[:160].replace("-/", "- /") + ")")
         out.append(fb); untranslated.append(name)
 q = lambda xs: "[" + ", ".join('"' + x + '"' for x in xs) + "]"
 out.append(f"def translated : List String := {q(translated)}")
